@@ -291,6 +291,11 @@ def systematic_cases(tier):
             for i in range(0, 16 if quick else 200):
                 for v in ((0, 4294967295, -7) if quick else (0, 4294967295, 10**12, -7, 99999999)):
                     yield mk(["line_digit", i, v])
+            # ... and numbers anywhere in a text document (radii, angles, counts deep inside the file), spread evenly
+            nruns = len(_re.findall(rb"\d+", data)) if data[:2] != b"PK" and not data[:4] == b"glTF" else 0
+            for i in range(16, nruns, max(1, nruns // (80 if quick else 2000))):
+                for v in ((100000, 4294967295) if quick else (100000, 4294967295, 0, -7)):
+                    yield mk(["line_digit", i, v])
             # chunks
             for i in range(0, n, max(1, n // (8 if quick else 100))):
                 for ln in ((4, 64) if quick else (1, 4, 16, 64)):
